@@ -153,6 +153,8 @@ class Exec:
             if 'future' not in it or (it['future'].done() and not self.late):
                 return self._skip()
             w.fut_cancel(iid)
+            if len(a) < 2 or a[1]:
+                w.settle()
         elif op == 'pump':
             w.pump(chunk=a[0] if a else None)
         elif op == 'settle':
@@ -161,6 +163,12 @@ class Exec:
             if a[0] not in w.dirs or not w.dirs[a[0]].pending():
                 return self._skip()
             w.deliver(a[0], a[1] if len(a) > 1 else None)
+        elif op == 'deliver_frame':
+            if a[0] not in w.dirs or not w.dirs[a[0]].pending():
+                return self._skip()
+            w.dirs[a[0]].deliver_frame()
+            if len(a) < 2 or a[1]:
+                w.settle()
         elif op == 'deliver_nosettle':
             if a[0] not in w.dirs or not w.dirs[a[0]].pending():
                 return self._skip()
